@@ -21,4 +21,6 @@ def run(ctx):
     D.queue_typestate(ctx)
     ctx.rule("R-SEED-BIND", "server: the stored seed changes only when a seed message carrying it is sent", floor=1)
     D.seed_bind(ctx)
+    ctx.rule("R-SETTLE-FIRST", "the seed a key is checked against, and the transaction state, are stored before the frame that is answered goes out", floor=4)
+    D.settle_first(ctx)
     return "key-check dominance, error translation, bounded wait and restore-on-all-exits of the DM14 facade, client and server"
